@@ -821,3 +821,50 @@ Lemma globals_none_shared_mutable_lemma :
   filter is_shared_mutable inventory = [] /\
   forallb (fun g => negb (existsb (String.eqb g) inventory)) d6_statics = true.
 Proof. vm_compute. split; reflexivity. Qed.
+
+(* the explicitly modelled process-wide cells are in the inventory of the built library *)
+Lemma globals_modelled_cells_present_lemma : forallb (fun g => existsb (String.eqb g) inventory && audited g) modelled_cells = true.
+Proof. vm_compute. reflexivity. Qed.
+
+(* ================================================================== the default logger (Sys/LogModel.v) *)
+From QV Require Import Sys.LogModel.
+
+Lemma lg_get_del_ne m a b : a <> b -> lg_get (lg_del m a) b = lg_get m b.
+Proof.
+  intros H. induction m as [|[d s] m IH]; simpl; auto.
+  destruct (Nat.eqb d a) eqn:E; simpl.
+  - apply Nat.eqb_eq in E. subst. rewrite IH. destruct (Nat.eqb a b) eqn:E2; auto. apply Nat.eqb_eq in E2. contradiction.
+  - rewrite IH. reflexivity.
+Qed.
+
+Lemma lg_get_set_ne m a b s : a <> b -> lg_get (lg_set m a s) b = lg_get m b.
+Proof.
+  intros H. unfold lg_set. simpl. destruct (Nat.eqb a b) eqn:E.
+  - apply Nat.eqb_eq in E. contradiction.
+  - apply lg_get_del_ne. auto.
+Qed.
+
+Local Arguments lg_set : simpl never.
+Local Arguments lg_del : simpl never.
+
+(* no operation of document a - creation, redirection of its output (setOutputStreams / setLogger), emission,
+   destruction - changes where another document's output goes, and none writes the process-wide default logger *)
+Lemma logger_frame_lemma : forall (w : lworld) (a b : nat) (op : lop),
+  a <> b ->
+  sink_of (fst (lstep false a w op)) b = sink_of w b /\ lg_default (fst (lstep false a w op)) = lg_default w.
+Proof.
+  intros w a b op H. unfold sink_of, lstep. destruct op.
+  - cbn [fst lg_docs lg_default]. rewrite lg_get_set_ne by auto. auto.
+  - destruct (lg_get (lg_docs w) a); cbn [fst lg_docs lg_default]; auto. rewrite lg_get_set_ne by auto. auto.
+  - cbn [fst]. auto.
+  - cbn [fst lg_docs lg_default]. rewrite lg_get_del_ne by auto. auto.
+Qed.
+
+(* what the rule excludes: if redirection reconfigured the logger the document already uses (the shared default
+   one), document 1's output would follow document 2's redirection - and stay there after document 2 is gone *)
+Lemma logger_redirect_through_default_breaks_frame_lemma :
+  log_run true [(1%nat, LCreate); (2%nat, LCreate); (1%nat, LEmit); (2%nat, LRedirect 2); (1%nat, LEmit); (2%nat, LDestroy); (1%nat, LEmit)]
+    = [None; None; Some 0%nat; None; Some 2%nat; None; Some 2%nat] /\
+  log_run false [(1%nat, LCreate); (2%nat, LCreate); (1%nat, LEmit); (2%nat, LRedirect 2); (1%nat, LEmit); (2%nat, LDestroy); (1%nat, LEmit)]
+    = [None; None; Some 0%nat; None; Some 0%nat; None; Some 0%nat].
+Proof. split; reflexivity. Qed.
